@@ -46,7 +46,7 @@ Definition entry_code (e : option (@entry N)) : list N :=
 Definition ev_code (e : ev) : list N :=
   match e with
   | EvHit => [10] | EvMiss => [11] | EvHit2 => [12] | EvStore k => 13 :: key_code k
-  | EvClean => [14] | EvBroken => [15] | EvRaise => [16]
+  | EvClean => [14] | EvBroken => [15] | EvRaise => [16] | EvStoreFail => [17]
   end.
 
 (* None of the real _get = absent or skipped *)
@@ -99,7 +99,7 @@ Fixpoint steps (t : table) (x : xst) (l : list act) : list (list N) :=
   | a :: r => let '(x', o) := step t x a in o :: steps t x' r
   end.
 
-Definition x0 : xst := mkX (mkCfg MHash LIn 0 true) LkW (mkRst (mkSt [] []) []).
+Definition x0 : xst := mkX (mkCfg MHash LIn 0 true true) LkW (mkRst (mkSt [] []) []).
 
 Definition run_script (in_ : table * list act) : list (list N) := steps (fst in_) x0 (snd in_).
 
